@@ -42,13 +42,13 @@ func New() *C16d { return &C16d{rw: sim.NewRaceWatcher()} }
 func (*C16d) ID() string       { return "C16" }
 func (*C16d) CrashProne() bool { return true }
 func (*C16d) Rule() string {
-	return "(d) free-running stress under the race detector: 2-8 real goroutines released together, each performing 1-6 operations on one shared RequestCache (Get on 1-2 keys with instant fetch functions, GetMap followed by iteration of the result, SetMap) and on one shared CombinedNativeClient (lazy per-ecosystem client initialisation via AddRegistries / an unsupported system) and on one shared MavenRegistryAPIClient with 0-6 added registries (GetVersions / GetProject with a cancelled context: the client guided remediation's Maven resolver shares between concurrent patch attempts); schedule NOT simulator-controlled (stated); non-trivial = at least two goroutines touch the same object; a runtime fatal error (concurrent map access) that kills the worker is reported as violation class crash"
+	return "(d) free-running stress under the race detector: 2-8 real goroutines released together, each performing 1-6 operations on one shared RequestCache (Get on 1-2 keys with instant fetch functions, GetMap followed by iteration of the result, SetMap) and on one shared CombinedNativeClient (lazy per-ecosystem client initialisation via AddRegistries / an unsupported system) and on one shared MavenRegistryAPIClient with 0-6 added registries (GetVersions / GetProject with a cancelled context, WithoutRegistries, GobEncode of the cache: the client guided remediation's Maven resolver shares between concurrent patch attempts); schedule NOT simulator-controlled (stated); non-trivial = at least two goroutines touch the same object; a runtime fatal error (concurrent map access) that kills the worker is reported as violation class crash"
 }
 
 func (*C16d) Gen(rt *rapid.T, tier string) any {
 	sc := &Scenario{}
 	n := rapid.IntRange(2, 8).Draw(rt, "goroutines")
-	all := []string{"get:k0", "get:k0", "get:k1", "getmap", "getmap", "setmap", "sys:Maven", "sys:NPM", "sys:PyPI", "sys:Other", "mvn:versions", "mvn:versions", "mvn:project"}
+	all := []string{"get:k0", "get:k0", "get:k1", "getmap", "getmap", "setmap", "sys:Maven", "sys:NPM", "sys:PyPI", "sys:Other", "mvn:versions", "mvn:versions", "mvn:project", "mvn:without", "mvn:gob"}
 	sc.MavenRegs = rapid.IntRange(0, 6).Draw(rt, "maven_regs")
 	for i := 0; i < n; i++ {
 		sc.Ops = append(sc.Ops, rapid.SliceOfN(rapid.SampledFrom(all), 1, 6).Draw(rt, fmt.Sprintf("g%d", i)))
@@ -136,6 +136,12 @@ func (c *C16d) Run(t *testing.T, scn any) *sim.Outcome {
 					cache.Get(k, func() (string, error) { return fmt.Sprintf("%s-by-g%d", k, gi), nil })
 				case op == "mvn:versions":
 					mvn.GetVersions(cancelled, "org.example", "thing")
+				case op == "mvn:without":
+					// what the Maven resolve client does on every Requirements call
+					mvn.WithoutRegistries().GetVersions(cancelled, "org.example", "thing")
+				case op == "mvn:gob":
+					// the cache being persisted while lookups are still running
+					mvn.GobEncode()
 				case op == "mvn:project":
 					mvn.GetProject(cancelled, "org.example", "thing", "1.0.0")
 				case op == "sys:Maven":
